@@ -11,7 +11,7 @@ Variable K : fld.
 Variable V : lenv K.
 Variable j : K.
 Notation ex := (l_ex K V). Notation sn := (l_sn K V). Notation cs := (l_cs K V). Notation fabs := (l_fabs K V).
-Notation pi_ := (l_pi K V). Notation isr := (l_isr K V). Notation neg := (l_neg K V). Notation Fn := (l_Fn K V). Notation Ic := (l_Ic K V).
+Notation pi_ := (l_pi K V). Notation isr := (l_isr K V). Notation neg := (l_neg K V). Notation Fn := (l_Fn K V). Notation Ic := (l_Ic K V). Notation Fv := (l_Fv K V).
 (* exp, sin, cos, |.|, pi *)
 Hypothesis ex_add : forall a b, ex (a + b) = ex a * ex b.
 Hypothesis ex_0 : ex 0 = 1.
@@ -49,6 +49,7 @@ Proof. apply FormsOk.
   - exact (table_entry_deriv K V).
   - exact (table_entry_integ K).
   - exact (table_entry_conv K).
+  - exact (table_entry_sift K V fabs_pos).
 Qed.
 
 Variable orc : nf K -> option (K -> K).
@@ -58,30 +59,30 @@ Notation F := (gen_forms K V).
 (* term, as called by doit on a term with its Heaviside(t) factors removed, returns the LPair transform of the
    meaning of the term — whichever branch the dispatch takes *)
 Theorem term_sound_gen : forall zic m X evs x,
-  term K ex j isr neg F orc zic (strip K m) = (Some X, evs) -> den_mono K ex j isr neg m = Some x ->
+  term K ex j isr neg Fv F orc zic (strip K m) = (Some X, evs) -> den_mono K ex j isr neg Fv m = Some x ->
   LPair K ex isr neg Fn (Icz K Ic zic) x (dom_mono K ex j isr neg m) X.
-Proof. exact (term_sound K ex sn cs j isr neg Fn Ic F orc ex_add ex_0 jj sn_euler cs_euler isr_0 isr_1 isr_add isr_opp isr_mul isr_inv
+Proof. exact (term_sound K ex sn cs j isr neg Fn Ic Fv F orc ex_add ex_0 jj sn_euler cs_euler isr_0 isr_1 isr_add isr_opp isr_mul isr_inv
                neg_0 neg_1 neg_opp neg_mul neg_inv neg_add gen_forms_ok orc_ok). Qed.
 Theorem doit_sound_gen : forall zic e X evs y,
-  doit K ex j isr neg F orc zic e = (Some X, evs) -> den K ex j isr neg (divc K (top_const K e) e) = Some y ->
+  doit K ex j isr neg Fv F orc zic e = (Some X, evs) -> den K ex j isr neg Fv (divc K (top_const K e) e) = Some y ->
   LPair K ex isr neg Fn (Icz K Ic zic) (SScale (top_const K e) y) (dom K ex j isr neg (divc K (top_const K e) e)) X.
-Proof. exact (doit_sound K ex sn cs j isr neg Fn Ic F orc ex_add ex_0 jj sn_euler cs_euler isr_0 isr_1 isr_add isr_opp isr_mul isr_inv
+Proof. exact (doit_sound K ex sn cs j isr neg Fn Ic Fv F orc ex_add ex_0 jj sn_euler cs_euler isr_0 isr_1 isr_add isr_opp isr_mul isr_inv
                neg_0 neg_1 neg_opp neg_mul neg_inv neg_add gen_forms_ok orc_ok). Qed.
 (* the transform is linear: sums of terms, and constant factors *)
 Theorem L_linear_gen : forall zic e1 e2 X1 X2,
-  fst (doit_terms K ex j isr neg F orc zic e1) = Some X1 -> fst (doit_terms K ex j isr neg F orc zic e2) = Some X2 ->
-  exists X, fst (doit_terms K ex j isr neg F orc zic (e1 ++ e2)) = Some X /\ forall s, X s = X1 s + X2 s.
-Proof. exact (L_linear_add K ex j isr neg F orc). Qed.
-Theorem L_scale_gen : forall zic k c fs X evs, term1 K ex j isr neg F orc zic c fs = (Some X, evs) ->
-  exists X', term1 K ex j isr neg F orc zic (k * c) fs = (Some X', evs) /\
+  fst (doit_terms K ex j isr neg Fv F orc zic e1) = Some X1 -> fst (doit_terms K ex j isr neg Fv F orc zic e2) = Some X2 ->
+  exists X, fst (doit_terms K ex j isr neg Fv F orc zic (e1 ++ e2)) = Some X /\ forall s, X s = X1 s + X2 s.
+Proof. exact (L_linear_add K ex j isr neg Fv F orc). Qed.
+Theorem L_scale_gen : forall zic k c fs X evs, term1 K ex j isr neg Fv F orc zic c fs = (Some X, evs) ->
+  exists X', term1 K ex j isr neg Fv F orc zic (k * c) fs = (Some X', evs) /\
     forall s, s <> 0 -> (forall a b, fs = [LExp a b] -> s - a <> 0) -> X' s = k * X s.
-Proof. exact (term1_scale K ex sn cs j isr neg Fn Ic F orc gen_forms_ok). Qed.
+Proof. exact (term1_scale K ex sn cs j isr neg Fn Ic Fv F orc gen_forms_ok). Qed.
 (* the process-wide cache keyed by (expr, zero_initial_conditions) never changes a result *)
 Theorem cache_transparent_gen : forall (key_eqb : ckey K -> ckey K -> bool),
   (forall a b, key_eqb a b = true -> a = b) ->
-  forall qs c, cache_ok K ex j isr neg F orc c ->
-  run_c K ex j isr neg F orc key_eqb c qs = map (fun q => fst (doit K ex j isr neg F orc (fst q) (snd q))) qs.
-Proof. exact (cache_transparent_history K ex j isr neg F orc). Qed.
+  forall qs c, cache_ok K ex j isr neg Fv F orc c ->
+  run_c K ex j isr neg Fv F orc key_eqb c qs = map (fun q => fst (doit K ex j isr neg Fv F orc (fst q) (snd q))) qs.
+Proof. exact (cache_transparent_history K ex j isr neg Fv F orc). Qed.
 End Sound.
 
 Print Assumptions gen_forms_ok.
